@@ -743,6 +743,21 @@ func c12Edges(x *c12ctx, jr *rand.Rand, idx int) {
 			return refRangeProof(x, cred, []int{1}, 2, mm, -1, 1, k, pk.Params.Lm, bigFourSquares(dl), ctx, nonce, 2)
 		}},
 	}
+	// bounds beyond the machine word: the squares prove m >= m-1 (true), the descriptor announces (and the challenge covers) that
+	// bound plus 2^63, 2^64, 2^65, 2^128 - a false statement whose low 64 bits are those of the true one
+	for _, sh := range []uint{63, 64, 65, 128} {
+		for _, sg := range []int{1, -1} {
+			sh, sg := sh, sg
+			kTrue := bi(m - int64(sg))
+			kBig := add(kTrue, mul(bi(int64(sg)), pow2(sh)))
+			refs = append(refs, struct {
+				name string
+				f    func() *gabi.ProofD
+			}{fmt.Sprintf("bound moved by %d*2^%d (false), squares of the true difference", sg, sh), func() *gabi.ProofD {
+				return refRangeProof(x, cred, []int{1}, 2, mm, sg, 1, kBig, 128, refimpl.FourSquares(bi(1)), ctx, nonce, 2)
+			}})
+		}
+	}
 	// three squares with every small factor other than 4: the relation a*m >= k (resp. <=) proved is true, what a verifier
 	// would read from such a descriptor (factor a/4, bound k/4) need not be
 	for _, a := range []uint{0, 2, 3, 5, 6, 7, 8, 9, 12, 16} {
